@@ -82,7 +82,7 @@ def compare(ctx, key, what, a, b, cond, wsum, wit, shift=0.0):
     return True
 
 
-def make_setup(ctx, rng, mode, n_models, nb):
+def make_setup(ctx, rng, mode, n_models, nb, resolved=False):
     d = ctx.newdir('c11')
     names = gen.model_names(rng, n_models)
     wav = gen.band_wavelengths(rng, nb)
@@ -99,8 +99,13 @@ def make_setup(ctx, rng, mode, n_models, nb):
     else:
         aps = gen.aperture_table(rng, 4)
         conv = gen.conv_grid(rng, n_models, nb, n_ap=4)
+        if resolved:
+            # steep, band-dependent cumulative profiles so that remove_resolved excludes different (model, distance) pairs per band
+            aps = np.array([50.0, 400.0, 3000.0, 20000.0])
+            pw = rng.uniform(0.5, 5.0, (n_models, 1, nb))
+            conv = conv[:, -1:, :] * (aps[None, :, None] / aps[-1]) ** pw
         gen.write_grid_v1(d, names, bn, wav, conv, apertures=aps, aperture_dependent=True, logd_step=0.1)
-        theta = np.array([float(gen.loguniform(rng, aps[0] * 1.01, aps[-1])) for _ in range(nb)]) / 1000.0
+        theta = np.array([float(gen.loguniform(rng, aps[0] * 1.01, aps[-1] if not resolved else aps[2])) for _ in range(nb)]) / 1000.0
         dr = (1.0, 10 ** 0.55)
     return dict(dir=d, names=names, wav=wav, bn=bn, law=law, k=k, conv=conv, aps=aps, theta=theta, dr=dr, mode=mode,
                 lw=lw, lc=lc)
@@ -133,8 +138,8 @@ def run(ctx):
     ctx.assume('filter permutation re-associates sums: compared with 1e-9/cond on parameters and an objective-scaled tolerance on chi^2',
                'model permutation and history: bit-identical (NaN-aware)', 'tie order is free: comparison is per model name')
     ctx.require_events('Fitter.fit:post', 'pair:filter-permutation', 'pair:model-permutation', 'pair:flux-scaling', 'pair:history')
-    ctx.require_regimes('mode:2d', 'mode:3d')
-    n_sets = 2 if ctx.quick else 4
+    ctx.require_regimes('mode:2d', 'mode:3d', 'history:remove_resolved-band-dependent')
+    n_sets = 1 if ctx.quick else 4
     for iset in range(n_sets):
         for mode in ('2d', '3d'):
             ctx.regime('mode:' + mode)
@@ -206,8 +211,33 @@ def run(ctx):
                         ctx.case(('scale', iset, c, ctx.shard, ctx.evaluations), nontrivial=True)
 
             # ---- histories -----------------------------------------------------------
+            history_block(ctx, rng, st, sources, mode, iset, {})
+            if mode == '3d':
+                st_r = make_setup(ctx, rng, mode, n_models=8, nb=nb, resolved=True)
+                src_r = []
+                for _ in range(6):
+                    v, f, e, cond, wsum = draw_source(rng, st_r)
+                    v = v.copy()
+                    drop = rng.random(nb) < 0.35          # different sources use different sets of filters
+                    if np.sum(((v == 1) | (v == 4)) & ~drop) >= 1:
+                        v[drop] = 0
+                    src_r.append((v, f, e, cond, wsum))
+                history_block(ctx, rng, st_r, src_r, mode, iset, dict(remove_resolved=True, use_memmap=False))
+                ctx.rmdir(st_r['dir'])
+            ctx.rmdir(st['dir'])
+
+
+def history_block(ctx, rng, st, sources, mode, iset, fkw):
+    if True:
+        if True:
+            def mk():
+                return gen.make_fitter(st['bn'], st['theta'], st['dir'], st['law'], (-5.0, 40.0), st['dr'], **fkw)
+            if fkw.get('remove_resolved'):
+                ext = np.asarray(mk().models.extended)
+                if ext.any() and len(set(tuple(ext[:, :, f].ravel()) for f in range(ext.shape[2]))) > 1:
+                    ctx.regime('history:remove_resolved-band-dependent')
             target = sources[0]
-            fresh = gen.make_fitter(st['bn'], st['theta'], st['dir'], st['law'], (-5.0, 40.0), st['dr'])
+            fresh = mk()
             want = probe.canon_info(fresh.fit(gen.build_source('t', *target[:3])))
             others = sources[1:]
             hists = []
@@ -216,19 +246,18 @@ def run(ctx):
             if ctx.quick:
                 hists = [hists[i] for i in rng.choice(len(hists), 60, replace=False)]
             hists += [tuple(rng.integers(0, len(others), 6)) for _ in range(10)]
-            shared = gen.make_fitter(st['bn'], st['theta'], st['dir'], st['law'], (-5.0, 40.0), st['dr'])
+            shared = mk()
             for ih, h in enumerate(hists):
-                ft = shared if ih % 2 else gen.make_fitter(st['bn'], st['theta'], st['dir'], st['law'], (-5.0, 40.0), st['dr'])
+                ft = shared if ih % 2 else mk()
                 for j in h:
                     ft.fit(gen.build_source('o%d' % j, *others[j][:3]))
                 got = probe.canon_info(ft.fit(gen.build_source('t', *target[:3])))
                 diffs = probe.same_canon(want, got)
                 if diffs:
                     ctx.violation('history-dependent-fit', 'a fitter returned a different result for a source after fitting other sources first',
-                                  dict(mode=mode, history=list(map(int, h)), differs=diffs))
+                                  dict(mode=mode, history=list(map(int, h)), differs=diffs, fitter_options=fkw))
                 ctx.event('pair:history')
-                ctx.case(('hist', iset, mode, tuple(map(int, h)), ih % 2, ctx.shard), nontrivial=True)
-            ctx.rmdir(st['dir'])
+                ctx.case(('hist', iset, mode, tuple(map(int, h)), ih % 2, bool(fkw), ctx.shard), nontrivial=True)
 
 
 def replay(ctx, rec):
